@@ -142,7 +142,9 @@ CMR_ERROR CMRlisthashtableRemove(
 #define RANGE_SIGNED_HASH (DISCOPT_CMR_VERIF_HASH_RANGE)
 #endif
 #ifndef RANGE_SIGNED_HASH
-#define RANGE_SIGNED_HASH (LLONG_MAX/2)
+/* Hash values h with |h| < RANGE_SIGNED_HASH are combined as 3*h and as sums of two of them before being projected,
+ * and projectSignedHash adds the range once more: a range of LLONG_MAX/8 keeps all of this within long long. */
+#define RANGE_SIGNED_HASH (LLONG_MAX/8)
 #endif
 
 /**
